@@ -130,7 +130,7 @@ MULTILINE = [
     ("raw-string", "'", "'", ["r", "a b", "${x}"], "n"),
     ("string", '"', '"', ["s", "a ${b} c", "#{d}", "$e \\n"], "n"),
     ("string-interp", '"a ${', '} z"', ["b +", "c", "1"], "n"),
-    ("regex", "%/", "/x", ["a+", "b # c", "${d}"], "n"),
+    ("regex", "%/", "/x", ["a+", "b # c", "${d}", "e\\", "\\"], "n"),     # a piece ending in a backslash: `\` + line feed
     ("word-list", "\\w[", "]", ["foo", "bar baz", "q"], "n"),
     ("symbol-set", "^s[", "]", ["foo", "bar baz", "q"], "n"),
     ("hex-tuple", "%x[", "]", ["ff", "1a 2b", "0"], "n"),
